@@ -12,6 +12,7 @@ import (
 type Iter struct {
 	err  error
 	msgC chan xml.TokenReader
+	done chan struct{}
 	cur  xml.TokenReader
 	h    *Handler
 	id   string
@@ -20,9 +21,17 @@ type Iter struct {
 
 // Next advances the iterator
 func (i *Iter) Next() bool {
-	var ok bool
-	i.cur, ok = <-i.msgC
-	return ok
+	if i.msgC == nil {
+		// The query could not be started, see Err.
+		return false
+	}
+	select {
+	case i.cur = <-i.msgC:
+		return true
+	case <-i.done:
+		i.cur = nil
+		return false
+	}
 }
 
 // Current returns the current message stream read from the iterator.
@@ -45,6 +54,8 @@ func (i *Iter) Result() Result {
 // Future messages will still be received but will be handled by the fallback
 // handler instead.
 func (i *Iter) Close() error {
-	i.h.remove(i.id)
+	if i.h != nil {
+		i.h.remove(i.id)
+	}
 	return nil
 }
